@@ -26,6 +26,16 @@ type Ptr struct {
 	off int
 }
 
+// SymPtr addresses element idx (symbolic, already bounds-checked) of an n-element region of scalars:
+// loads become ite chains over maximal runs of identical cells, stores become guarded updates.
+type SymPtr struct {
+	obj    *Obj
+	off    int // byte offset of element 0 (plus any field offset)
+	idx    *Term
+	stride int
+	n      int
+}
+
 type Slice struct {
 	obj      *Obj
 	off      int // bytes
@@ -587,4 +597,131 @@ func (vm *VM) valueEq(a, b Value, t types.Type) *Term {
 	}
 	unsupported("equality on %T", a)
 	return nil
+}
+
+// scalarOnly reports whether t contains only integers/bools (so that symbolic element selection can use ite).
+func scalarOnly(t types.Type) bool {
+	switch u := t.Underlying().(type) {
+	case *types.Basic:
+		return u.Info()&(types.IsInteger|types.IsBoolean) != 0
+	case *types.Struct:
+		for i := 0; i < u.NumFields(); i++ {
+			if !scalarOnly(u.Field(i).Type()) {
+				return false
+			}
+		}
+		return true
+	case *types.Array:
+		return scalarOnly(u.Elem())
+	}
+	return false
+}
+
+func (vm *VM) symLoad(p SymPtr, t types.Type) Value {
+	ts := vm.ts
+	switch u := t.Underlying().(type) {
+	case *types.Struct:
+		offs := vm.fieldOffsets(u)
+		tu := make(Tuple, u.NumFields())
+		for i := range tu {
+			q := p
+			q.off += offs[i]
+			tu[i] = vm.symLoad(q, u.Field(i).Type())
+		}
+		return tu
+	case *types.Array:
+		es := sizeof(u.Elem())
+		tu := make(Tuple, u.Len())
+		for i := range tu {
+			q := p
+			q.off += i * es
+			tu[i] = vm.symLoad(q, u.Elem())
+		}
+		return tu
+	}
+	isBool := isBoolT(t)
+	sz := sizeof(t)
+	type seg struct {
+		lo, hi int
+		v      *Term
+	}
+	var segs []seg
+	for i := 0; i < p.n; i++ {
+		var v *Term
+		if isBool {
+			v = vm.load(Ptr{p.obj, p.off + i*p.stride}, t).(*Term)
+		} else {
+			v = vm.loadScalar(p.obj, p.off+i*p.stride, sz)
+		}
+		if k := len(segs); k > 0 && segs[k-1].v == v {
+			segs[k-1].hi = i
+		} else {
+			segs = append(segs, seg{i, i, v})
+		}
+	}
+	acc := segs[len(segs)-1].v
+	for k := len(segs) - 2; k >= 0; k-- {
+		sg := segs[k]
+		var c *Term
+		if sg.lo == sg.hi {
+			c = ts.Eq(p.idx, ts.BV(64, uint64(sg.lo)))
+		} else if sg.lo == 0 {
+			c = ts.Ule(p.idx, ts.BV(64, uint64(sg.hi)))
+		} else {
+			c = ts.And(ts.Ule(ts.BV(64, uint64(sg.lo)), p.idx), ts.Ule(p.idx, ts.BV(64, uint64(sg.hi))))
+		}
+		acc = ts.Ite(c, sg.v, acc)
+	}
+	return acc
+}
+
+func (vm *VM) symStore(p SymPtr, v Value, t types.Type) {
+	ts := vm.ts
+	switch u := t.Underlying().(type) {
+	case *types.Struct:
+		offs := vm.fieldOffsets(u)
+		for i, f := range v.(Tuple) {
+			q := p
+			q.off += offs[i]
+			vm.symStore(q, f, u.Field(i).Type())
+		}
+		return
+	case *types.Array:
+		es := sizeof(u.Elem())
+		for i, f := range v.(Tuple) {
+			q := p
+			q.off += i * es
+			vm.symStore(q, f, u.Elem())
+		}
+		return
+	}
+	nv := v.(*Term)
+	sz := sizeof(t)
+	isBool := isBoolT(t)
+	for i := 0; i < p.n; i++ {
+		c := ts.Eq(p.idx, ts.BV(64, uint64(i)))
+		if c.IsFalse() {
+			continue
+		}
+		off := p.off + i*p.stride
+		var old *Term
+		if isBool {
+			old = vm.load(Ptr{p.obj, off}, t).(*Term)
+		} else {
+			old = vm.loadScalar(p.obj, off, sz)
+		}
+		vm.storeCell(p.obj, off, sz, ts.Ite(c, nv, old))
+	}
+}
+
+// concretePtr turns a SymPtr into an ordinary pointer by forking over the index.
+func (vm *VM) concretePtr(v Value) Ptr {
+	switch p := v.(type) {
+	case Ptr:
+		return p
+	case SymPtr:
+		i := vm.concreteInt(p.idx)
+		return Ptr{p.obj, p.off + i*p.stride}
+	}
+	panic(fmt.Sprintf("concretePtr on %T", v))
 }
